@@ -1553,11 +1553,11 @@ Proof.
       destruct Hin as [->|Hin]; [congruence | right; eapply IH; eauto]. }
   destruct (assign_mids_noop ss n0 out1 0 p1) as [q1 [Q1 [Q2 [Q3 [Q4 [Q5 [Q6 [Q7 [Q8 [Q9 Q10]]]]]]]]]].
   { intros j m Hj. cbn. rewrite Ess. rewrite nth_error_app1.
-    - rewrite <- X2. apply nth_error_secs. exact Hj.
+    - rewrite <- Es, <- X2. apply nth_error_secs. exact Hj.
     - rewrite En0, <- Elen1. apply nth_error_Some. congruence. }
   { cbn. lia. }
   { intros j m Hj. assert (Hs : In (m_kind m, m_mid m) (S a)).
-    { rewrite <- X2. eapply nth_error_In. apply nth_error_secs. exact Hj. }
+    { rewrite <- Es, <- X2. eapply nth_error_In. apply nth_error_secs. exact Hj. }
     destruct (W5 _ Hs) as [Q|Q]; auto. }
   { intros t j Hin Hl Hlt. cbn in Hin. destruct (Htrs2 t Hin) as [[I1 I2]|[n [I1 [I2 _]]]].
     - destruct (t_mid t) as [mu|] eqn:Emid; [|congruence].
@@ -1606,9 +1606,11 @@ Proof.
   set (q4 := set_transports q3 (map (fun t => if tr_live t then tr_set_ice true t else t) (p_transports q3))).
   set (a2 := set_local q4 (p_cur_local q4) (Some offer)).
   assert (Hsl : set_local_description fixed a1 offer = Ok a2).
-  { unfold set_local_description. cbn [p_state a1 set_sctp_mline set_trs]. rewrite W1.
-    unfold validate_description. cbn [d_type offer Z.eqb p_state set_sctp_mline set_trs andb negb]. rewrite W1. cbn [negb bind].
-    fold p1. rewrite Ham. cbn [bind d_type offer Z.eqb]. reflexivity. }
+  { assert (Hst1 : p_state a1 = Stable) by exact W1.
+    assert (Hval : validate_description a1 offer true = Ok tt) by (unfold validate_description; rewrite Hst1; reflexivity).
+    pose proof Ham as Ham'. unfold p1 in Ham'.
+    unfold set_local_description. rewrite Hst1, Hval. cbn [bind]. change (d_type offer) with 0. cbn [Z.eqb].
+    rewrite Ham'. cbn [bind]. reflexivity. }
   exists a2. split; [exact Hco|]. split; [exact Hsl|].
   (* the resulting connection *)
   assert (Etrs : p_trs a2 = assign_new trs0 (length out1) (map m_mid out2)) by (subst a2 q4; cbn; rewrite T2, R2; reflexivity).
@@ -1621,11 +1623,9 @@ Proof.
       destruct (nth_error (S a) j) as [[k mu]|] eqn:Ej; [|apply nth_error_None in Ej; lia].
       exists k, mu. split; [apply Hext; exact Ej|]. apply in_map_iff. exists (k, mu). split; [reflexivity | eapply nth_error_In; eauto]. }
     assert (B2 : ali (length out1 + length (map m_mid out2)) (map snd (S a)) ([] ++ assign_new trs0 (length out1) (map m_mid out2)) ss).
-    { apply assign_new_ali; auto.
-      - cbn. rewrite Elen1. exact B1.
-      - intros y [].
-      - intros mu Hmu Hc. apply (N2 mu Hmu). apply W4. exact Hc.
-      - intros y Hy. apply (al_kind _ _ A0 y Hy). }
+    { apply (assign_new_ali trs0 [] (length out1) (map snd (S a)) ss (map m_mid out2));
+        [ cbn [app]; rewrite Elen1; exact B1 | exact Hnd' | intros y [] | exact Hns
+        | intros mu Hmu Hc; apply (N2 mu Hmu); apply W4; exact Hc | intros y Hy; apply (al_kind _ _ A0 y Hy) ]. }
     cbn [app] in B2. rewrite map_length in B2.
     assert (Elss : length ss = (length out1 + length out2 + length out3)%nat).
     { subst ss ms. unfold secs_of. rewrite map_length, !app_length. lia. }
@@ -1635,8 +1635,8 @@ Proof.
       eapply (ali_skip _ _ _ _ 2 m); [exact B2 | | reflexivity].
       rewrite Ess. rewrite nth_error_app2 by lia. rewrite En0, <- Elen1.
       replace (length out1 + length out2 - length out1)%nat with (length out2) by lia.
-      rewrite nth_error_app2 by (unfold secs_of; rewrite map_length; lia).
-      unfold secs_of at 1. rewrite map_length, Nat.sub_diag. reflexivity. }
+      assert (El2 : length (secs_of out2) = length out2) by (unfold secs_of; apply map_length).
+      rewrite nth_error_app2 by lia. rewrite El2, Nat.sub_diag. reflexivity. }
   assert (Hsctp : (out3 = [] /\ p_sctp a2 = p_sctp a) \/
                   (exists m s, out3 = [media_for_sctp m RAuto] /\ p_sctp a = Some s /\ s_mid s = None /\
                                p_sctp a2 = Some (mkSctp (Some m) (s_bundled s) (s_transport s)))) by (subst a2 q4; cbn; exact T7).
@@ -1647,6 +1647,7 @@ Proof.
   { subst a2 q4 ms. cbn. rewrite !map_app. intros x Hx. apply in_app_or in Hx. destruct Hx as [Hx|Hx].
     - apply T5. apply R6. apply Q7. exact Hx.
     - apply in_app_or in Hx. destruct Hx as [Hx|Hx]; [apply T5; apply R7; exact Hx | apply T6; exact Hx]. }
+  change (secs_of (d_media offer)) with ss. change (d_media offer) with ms.
   split.
   { constructor.
     - exact Hnd'.
@@ -1695,16 +1696,93 @@ Proof.
     rewrite G1 in G3. inversion G3; subst s2. rewrite G2 in G4. inversion G4; subst m2.
     destruct (secs_nth_mid_inj _ _ _ _ _ _ Hnd' H1 H2) as [E _]. exact E. }
   split.
-  { intros s Hs. fold ss in Hs. rewrite Ess in Hs. apply in_app_or in Hs. destruct Hs as [Hs|Hs]; [apply W5; exact Hs|].
+  { intros s Hs. rewrite Ess in Hs. apply in_app_or in Hs. destruct Hs as [Hs|Hs]; [apply W5; exact Hs|].
     apply in_app_or in Hs. destruct Hs as [Hs|Hs].
     - unfold secs_of in Hs. apply in_map_iff in Hs. destruct Hs as [m [<- Hm]]. left. cbn. apply Hk2. exact Hm.
     - destruct Hout3 as [[-> _]|[m [s0 [-> _]]]]; [destruct Hs | destruct Hs as [<-|[]]; right; reflexivity]. }
   split.
   { intros t Hin. rewrite Etrs in Hin. destruct (assign_new_elem _ _ _ _ _ Hns Hin) as [Qm [t0 [Q [Qk [_ [Qp [Qc [Qx _]]]]]]]].
     split; [|exact Qm]. unfold offered. rewrite Qk, Qp, Qc, Qx. apply C2. exact Q. }
-  { cbn [d_media offer]. unfold ms. apply Forall_app. split; [|apply Forall_app; split].
+  { unfold ms. apply Forall_app. split; [|apply Forall_app; split].
     - eapply Forall_impl; [|exact X3]. intros m Hm Hav. destruct (Hm Hav) as [t [G1 G2]].
       exists t. split; [|exact G2]. rewrite Etrs. apply assign_new_keeps; [exact G1|]. destruct G2 as [G2 _]. congruence.
     - rewrite Etrs. apply (offer_new_from _ _ _ _ _ _ E2 []).
     - destruct Hout3 as [[-> _]|[m [s0 [-> _]]]]; constructor; [|constructor]. intro Hc. cbn in Hc. discriminate. }
+Qed.
+
+(* ---- (W) an exchange keeps both connections well-formed and in step ------------------------------------------ *)
+Lemma create_offer_codecs : forall T a a1 offer, create_offer T a = Ok (a1, offer) -> exists trs0, offer_codecs T (p_trs a) = Ok trs0.
+Proof.
+  intros T a a1 offer H. unfold create_offer in H.
+  destruct (match p_state a with Closed => true | _ => false end); [discriminate|].
+  bind_inv H trs0 Htrs0. exists trs0. exact Htrs0.
+Qed.
+
+Lemma wf_wfs_S : forall T p, wf T p -> wfs T p (S p).
+Proof. intros T p W. apply wf_wfs in W. tauto. Qed.
+
+Lemma extends_refl : forall ss, extends ss ss.
+Proof. intros ss j x H. exact H. Qed.
+
+Lemma exchange_wf : forall fixed T a b x, exchange fixed T a b = Ok x -> wf T a -> wf T b -> S a = S b ->
+  wf T (x_a x) /\ wf T (x_b x) /\ S (x_a x) = S (x_b x) /\
+  S (x_a x) = secs_of (d_media (x_offer x)) /\ extends (S (x_a x)) (S a).
+Proof.
+  intros fixed T a b x H Wa Wb Hsync.
+  destruct (exchange_steps _ _ _ _ _ H) as [a1 [offer [a2 [b1 [answer [b2 [a3 [H1 [H2 [H3 [H4 [H5 [H6 ->]]]]]]]]]]]]].
+  cbn [x_a x_b x_offer].
+  destruct (create_offer_codecs _ _ _ _ H1) as [trs0 Hoc].
+  destruct (offer_phase fixed T a trs0 Wa Hoc) as [a1' [offer' [a2' [G1 [G2 [G3 [G4 [G5 [G6 [G7 _]]]]]]]]]].
+  rewrite H1 in G1. inversion G1; subst a1' offer'; clear G1. rewrite H2 in G2. inversion G2; subst a2'; clear G2.
+  set (ss := secs_of (d_media offer)) in *.
+  pose proof (wf_inv_desc _ _ Wa) as Ia.
+  destruct (exchange_inv_desc _ _ _ _ _ H Ia) as [Hnd _]. cbn [x_offer] in Hnd.
+  pose proof (exchange_mirrors _ _ _ _ _ H Hnd) as M. destruct M as [Ma Mb _ Msec _ _ _].
+  cbn [x_a x_b x_offer x_answer] in *.
+  assert (Eans : secs_of (d_media answer) = ss) by exact Msec.
+  (* answerer *)
+  assert (Wb1 : wfs T b1 ss).
+  { eapply set_remote_description_wfs; eauto; [apply wf_wfs_S; exact Wb | rewrite <- Hsync; exact G4]. }
+  destruct (create_answer_spec _ _ H4) as [_ [At _]].
+  assert (Wb2 : wfs T b2 ss).
+  { rewrite <- Eans. eapply set_local_answer_wfs; eauto. rewrite Eans. exact Wb1. }
+  (* offerer *)
+  assert (Wa3 : wfs T a3 ss).
+  { rewrite <- Eans. eapply (set_remote_description_wfs fixed T a2 answer a3 ss); eauto.
+    - rewrite Eans. apply extends_refl.
+    - rewrite <- secs_of_mids, Eans. unfold ss. rewrite secs_of_mids. exact G5.
+    - rewrite Eans. exact G6.
+    - rewrite Eans. exact G7. }
+  (* descriptions *)
+  destruct (set_local_description_spec _ _ _ _ H2) as [_ [_ [A3 _]]].
+  destruct (set_remote_description_spec _ _ _ _ _ H6) as [_ [_ [B3 [B4 [B5 _]]]]].
+  destruct (set_remote_description_spec _ _ _ _ _ H3) as [_ [_ [C3 _]]].
+  destruct (set_local_description_spec _ _ _ _ H5) as [_ [_ [D3 [D4 [D5 _]]]]].
+  assert (El : local_description a3 = Some offer) by (unfold local_description in *; rewrite B4, B5; exact A3).
+  assert (Er : remote_description b2 = Some offer) by (unfold remote_description in *; rewrite D4, D5; exact C3).
+  assert (Sa3 : S a3 = ss) by (unfold S; rewrite El; reflexivity).
+  assert (Sb2 : S b2 = ss) by (unfold S; rewrite D3; exact Eans).
+  split; [|split; [|split; [|split]]].
+  - apply wf_wfs. split; [exact Ma|]. split; [rewrite B3, Sa3; exact Eans | rewrite Sa3; exact Wa3].
+  - apply wf_wfs. split; [exact Mb|]. split; [rewrite Er, Sb2; reflexivity | rewrite Sb2; exact Wb2].
+  - congruence.
+  - exact Sa3.
+  - rewrite Sa3. exact G4.
+Qed.
+
+Lemma run_session_wf : forall fixed T steps a b a' b',
+  run_session fixed T a b steps = Ok (a', b') -> wf T a -> wf T b -> S a = S b ->
+  wf T a' /\ wf T b' /\ S a' = S b'.
+Proof.
+  intros fixed T. induction steps as [|s steps IH]; intros a b a' b' H Wa Wb Hs; cbn [run_session] in H.
+  - inversion H; subst. auto.
+  - destruct s as [o|o| |].
+    + bind_inv H a1 Ha1. pose proof (wf_apply_op _ _ _ _ Wa Ha1) as W1.
+      destruct (apply_op_same _ _ _ _ Ha1) as [S1 _]. destruct (S_same _ _ S1) as [E _].
+      eapply IH; eauto. congruence.
+    + bind_inv H b1 Hb1. pose proof (wf_apply_op _ _ _ _ Wb Hb1) as W1.
+      destruct (apply_op_same _ _ _ _ Hb1) as [S1 _]. destruct (S_same _ _ S1) as [E _].
+      eapply IH; eauto. congruence.
+    + bind_inv H x Hx. destruct (exchange_wf _ _ _ _ _ Hx Wa Wb Hs) as [W1 [W2 [E _]]]. eapply IH; eauto.
+    + bind_inv H x Hx. destruct (exchange_wf _ _ _ _ _ Hx Wb Wa (eq_sym Hs)) as [W1 [W2 [E _]]]. eapply IH; eauto.
 Qed.
